@@ -1,7 +1,7 @@
 //! G3 correspondence harness for C19: runs constructors, mutators and the naming-scheme
 //! functions of the REAL semantic string types and prints one observation per operation.
 //! usage: c19 <mode> <type|-> <level> <shard> <nshards> <seed> [ncases]
-//!   mode = exh-new | exh-mut | rnd | fun | iso
+//!   mode = exh-new | exh-mut | rnd | fun | iso | reg (regression histories of repaired defects)
 //! Byte strings are printed as lowercase hex, the empty string as "-".
 extern crate iceoryx2_bb_loggers;
 
@@ -319,6 +319,51 @@ fn rnd_str(a: &Args, out: &mut Out) {
     }
 }
 
+fn reg_mut<const C: usize, T: SemanticString<C>>(ty: &str, base: &[u8], ops: &[Op], out: &mut Out) {
+    out.line(&format!("C mut1 {} {}", ty, hex(base)));
+    for op in ops {
+        let mut v = T::new(base).unwrap();
+        let r = apply::<C, T>(&mut v, op);
+        out.line(&format!("O {} = {}/{}", op.show(), r, hex(v.as_bytes())));
+    }
+}
+
+/// regression histories: the witnesses of the six defect classes that were repaired in /repo
+/// (47ad8e2, 8cf1846, c6cc798, 19ab506, a263455, e2099f0); they must agree with model and spec now
+fn regression(out: &mut Out) {
+    for (ty, inputs) in [("fn", vec![vec![0u8], vec![0x80], vec![b'a', 0xff]]), ("b64", vec![vec![0u8]]), ("path", vec![vec![0x80u8]])] {
+        out.line(&format!("C new {}", ty));
+        for b in inputs {
+            let o = match ty { "fn" => new_obs::<255, FileName>(&b), "b64" => new_obs::<255, Base64Url>(&b), _ => new_obs::<255, Path>(&b) };
+            out.line(&format!("O new {} = {}", hex(&b), o));
+        }
+    }
+    reg_mut::<255, FileName>("fn", b"a", &[Op::Push(128), Op::Push(0), Op::InsB(0, vec![0x80]), Op::PushB(vec![b'b', 0])], out);
+    reg_mut::<2, RestrictedFileName<2>>("rfn2", b"a-", &[Op::RemR(0, 0), Op::RemR(1, 0), Op::RemR(2, 0), Op::StripP(vec![]), Op::StripS(vec![])], out);
+    reg_mut::<2, RestrictedFileName<2>>("rfn2", b"ab", &[Op::RemR(0, 0), Op::StripP(vec![]), Op::StripS(vec![])], out);
+    let a124 = vec![b'a'; 124];
+    let a255 = vec![b'a'; 255];
+    reg_mut::<255, FileName>("fn", &a124, &[Op::StripP(a124.clone()), Op::StripS(a124.clone())], out);
+    reg_mut::<255, FileName>("fn", &a255, &[Op::StripP(a255.clone()), Op::StripS(a255.clone()), Op::RemR(0, 0), Op::StripP(vec![]), Op::StripS(vec![])], out);
+    reg_mut::<255, Base64Url>("b64", &a124, &[Op::StripP(a124.clone()), Op::StripS(a124.clone())], out);
+    let mut fp = a124.clone(); fp.extend_from_slice(b"/b");
+    reg_mut::<255, FilePath>("fpath", &fp, &[Op::StripP(fp.clone()), Op::StripS(fp.clone()), Op::StripS(b"b".to_vec())], out);
+    out.line("C fun -");
+    for f in [&b"a"[..], b"a.s", b"a.", b"a..", b"a..s", b"a...s", b"ab.s", b"a.s.s"] { funs::extractf(b"a", b".s", b"/t", f, out); }
+    funs::extractf(b"a", b"a", b"/tmp", b"a", out);
+    funs::extractf(b"a", b"a", b"/tmp", b"aa", out);
+    funs::addentry_line(b"a", &vec![b'b'; 254], out);
+    funs::addentry_line(b"aa", &vec![b'b'; 253], out);
+    funs::addentry_line(b"a", &vec![b'b'; 253], out);
+    funs::frompf_line(&vec![b'a'; 200], &vec![b'b'; 54], out);
+    funs::frompf_line(&vec![b'a'; 200], &vec![b'b'; 53], out);
+    funs::frompf_line(&vec![b'a'; 200], &vec![b'b'; 55], out);
+    let mut p = vec![b'a'; 200]; p[199] = b'/';
+    funs::frompf_line(&p, &vec![b'b'; 55], out);
+    funs::frompf_line(&p, &vec![b'b'; 54], out);
+    funs::frompf_line(b"", &vec![b'b'; 255], out);
+}
+
 macro_rules! dispatch {
     ($f:ident, $a:expr, $out:expr) => {
         match $a.ty.as_str() {
@@ -351,6 +396,7 @@ fn main() {
         "rnd" => if is_str { rnd_str(&args, &mut out) } else { dispatch!(rnd, &args, &mut out) },
         "fun" => funs::run(&args, &mut out),
         "iso" => iso::run(&args, &mut out),
+        "reg" => regression(&mut out),
         m => { eprintln!("unknown mode {}", m); std::process::exit(2); }
     }
     let _ = out.w.flush();
